@@ -1025,7 +1025,13 @@ void destruct_object (object_t * ob) {
         }
 
       if (otmp == ob->contains) /* not moved elsewhere ... see move_or_destruct() apply */
-        destruct_object (otmp);
+        {
+          destruct_object (otmp);
+          /* move_or_destruct() hooks run by the nested call can have moved us into one of
+           * the objects being destructed and destructed us: we are already unlinked then */
+          if (ob->flags & O_DESTRUCTED)
+            return;
+        }
     }
 
 #ifdef OLD_ED
